@@ -74,7 +74,7 @@ def _classify(case: Dict[str, Any], I: hist.Interp, res: CaseResult) -> None:
     res.cls("async" if case.get("async") else "sync")
     for k in {o["op"] for o in case["ops"]}:
         res.cls("op-" + k)
-    for k in ("failed-ops", "rerun-after-failure", "rerun-after-success", "cancelled-runs"):
+    for k in ("failed-ops", "rerun-after-failure", "rerun-after-success", "cancelled-runs", "cache-write-failed"):
         if I.stats[k]:
             res.cls(k)
     res.note = {"ops": len(case["ops"]), "failed_ops": I.stats["failed-ops"]}
@@ -133,7 +133,7 @@ def make_machine(H: Harness) -> Any:
         @rule(data=st.data())
         def mkexec(self, data: Any) -> None:
             sel = data.draw(st.one_of(st.none(), sc.selection_strategy(self.case["prog"])))
-            self.do({"op": "mkexec", "inst": self._inst(data), "sel": sel})
+            self.do({"op": "mkexec", "inst": self._inst(data), "sel": sel, "bad_cache": data.draw(st.sampled_from([False, False, False, True]))})
 
         @precondition(lambda self: self.I is not None and len(self.I.execs) > 0)
         @rule(data=st.data())
